@@ -12,14 +12,17 @@ def worldOf (F : List MNode) : World := fun k =>
   | some (t, a, _) => some (t, a)
   | none => none
 
+/-- element number ↦ tag, attributes, number of child elements -/
+abbrev Info := Nat → Option (QName × TAttrs × Nat)
+
 mutual
   /-- every placeholder names an element of the message and has as many child placeholders
       as that element has child elements -/
-  def XNode.compat (F : List MNode) : XNode → Prop
-    | .ph n _ r => (∃ t a, infoM 1 F n = some (t, a, r.length)) ∧ r.compat F
-  def XRest.compat (F : List MNode) : XRest → Prop
+  def XNode.compat (I : Info) : XNode → Prop
+    | .ph n _ r => (∃ t a, I n = some (t, a, r.length)) ∧ r.compat I
+  def XRest.compat (I : Info) : XRest → Prop
     | .nil => True
-    | .cons x _ r => x.compat F ∧ r.compat F
+    | .cons x _ r => x.compat I ∧ r.compat I
 end
 
 /-- the message has text or an expression outside its elements -/
@@ -96,7 +99,7 @@ theorem pvFeed_groups_ne_nil : ∀ (ns : List MNode) (p : PV), (hasTopText ns = 
 mutual
   theorem XNode.good_of_compat (F : List MNode) (ev : Groups)
       (hev : ∀ k t a c, infoM 1 F k = some (t, a, c) → ∃ gs, ev k = some gs ∧ GoodElem gs t a c) :
-      ∀ (x : XNode), x.compat F → x.good (worldOf F) ev
+      ∀ (x : XNode), x.compat (infoM 1 F) → x.good (worldOf F) ev
     | .ph n s0 r, h => by
         simp only [XNode.compat] at h
         obtain ⟨⟨t, a, hi⟩, hr⟩ := h
@@ -105,7 +108,7 @@ mutual
         exact ⟨hn, t, a, gs, by simp [worldOf, hi], hgs, hgood, XRest.good_of_compat F ev hev r hr⟩
   theorem XRest.good_of_compat (F : List MNode) (ev : Groups)
       (hev : ∀ k t a c, infoM 1 F k = some (t, a, c) → ∃ gs, ev k = some gs ∧ GoodElem gs t a c) :
-      ∀ (r : XRest), r.compat F → r.good (worldOf F) ev
+      ∀ (r : XRest), r.compat (infoM 1 F) → r.good (worldOf F) ev
     | .nil, _ => trivial
     | .cons x s r, h => by
         simp only [XRest.compat] at h
@@ -119,7 +122,7 @@ end
     `MessageBuffer.translate` returns the translation with every placeholder replaced by the
     original element, each exactly once, in the order of the translation. -/
 theorem translate_message (F : List MNode) (extra : List Str) (Y : Str → List TEvent) (s0 : Str) (r : XRest)
-    (hna : deepNoAdjM F = true) (hc : r.compat F) (hnd : r.nums.Nodup)
+    (hna : deepNoAdjM F = true) (hc : r.compat (infoM 1 F)) (hnd : r.nums.Nodup)
     (hp0 : plainSeg s0 = true) (hp : r.plain = true)
     (hseg : ∀ s ∈ s0 :: r.segs, yieldParts (valsM F).reverse s = .ok (Y s))
     (htop : (∀ s ∈ s0 :: r.topSegs, s = []) ∨ hasTopText F = true) :
